@@ -56,7 +56,7 @@ def _freeze_vars(o):
         try:
             out.append((k, framers._freeze(v)))
         except framers.UnknownState:
-            out.append((k, repr(v)))
+            out.append((k, ('opaque', type(v).__name__)))
     return tuple(out)
 
 
@@ -128,21 +128,30 @@ def histories(acc, m0, bodies, side, cname, depth):
             fresh[i] = (image(f2), bind.pdu_bytes(copy.deepcopy(f2)))
         except Exception:   # noqa
             return
-    reps = {}
+    reps = {}          # state -> history reaching it (objects are rebuilt by replaying it: no reliance on deepcopy)
 
     def key(o, last):
         return (_freeze_vars(o), last)
 
+    def rebuild(hist):
+        o = bind.to_obj(m0)
+        for ev in hist:
+            if ev == 'e':
+                bind.pdu_bytes(o)
+            else:
+                o.decode(bodies[int(ev[1:])][1:])
+        return o
+
     k0 = key(base, None)
-    reps[k0] = base
+    reps[k0] = ()
     wit0 = dict(cls=cname, side=side, m0=pdu.encode(m0).hex(), bodies=[x.hex() for x in bodies], part='hist')
+    img_of = {}
 
     def events(s):
         return ['e'] + ['d%d' % i for i in range(len(bodies))]
 
     def step(s, ev):
-        o = copy.deepcopy(reps[s])
-        last = s[1]
+        o = rebuild(reps[s])
         obs = None
         try:
             if ev == 'e':
@@ -154,10 +163,11 @@ def histories(acc, m0, bodies, side, cname, depth):
                 o.decode(bodies[i][1:])
                 obs = ('d', i)
                 ns = key(o, ('d', i))
+                img_of[ns] = image(o)
         except Exception as e:   # noqa
             return None, ('raise', type(e).__name__, repr(e)[:80])
         if ns not in reps:
-            reps[ns] = o
+            reps[ns] = reps[s] + (ev,)
         return ns, obs
 
     def on_edge(s, ev, nxt, obs, path):
@@ -177,7 +187,7 @@ def histories(acc, m0, bodies, side, cname, depth):
                               % (last[1], obs[1].hex()[:50], fresh[last[1]][1].hex()[:50]), cname)
         else:
             i = obs[1]
-            img = image(reps[nxt])
+            img = img_of[nxt]
             if img != fresh[i][0]:
                 acc.violation('C02/%s/accumulate/fields' % cname, w,
                               'fields after decode(x%d) differ from those of a fresh object decoding the same body' % i, cname)
